@@ -3,7 +3,11 @@
 package webtransport
 
 import (
+	"bytes"
+	"context"
 	"io"
+	"net/http"
+	"net/http/httptest"
 	"time"
 
 	"github.com/quic-go/quic-go"
@@ -13,30 +17,62 @@ import (
 	"github.com/karagenc/socket.io-go/engine.io/transport"
 )
 
-// Thin accessors for the C13 verification harness (no logic): the read side of the real
-// ServerTransport over a stream supplied by the harness instead of a QUIC stream.
+// Seam for the C11 / C13 verification harnesses (no logic): the real ServerTransport - Handshake, whatever it
+// wires between the stream and nextPacket, PostHandshake's read loop - over a stream supplied by the harness
+// instead of a QUIC stream. hooks.json replaces the two calls in Handshake that need an HTTP/3 request
+// (Server.Upgrade, Session.AcceptStream) by the two functions below; with no harness stream in the request
+// context they do exactly what the replaced calls did.
 
-// verifC13Stream adapts an io.Reader to webtransport.Stream (writes are discarded).
-type verifC13Stream struct {
+type verifStreamKey struct{}
+
+func verifUpgrade(s *webtransport.Server, w http.ResponseWriter, r *http.Request) (*webtransport.Session, error) {
+	if r.Context().Value(verifStreamKey{}) != nil {
+		return nil, nil
+	}
+	return s.Upgrade(w, r)
+}
+
+func verifAcceptStream(c *webtransport.Session, ctx context.Context) (webtransport.Stream, error) {
+	if st, ok := ctx.Value(verifStreamKey{}).(webtransport.Stream); ok {
+		return st, nil
+	}
+	return c.AcceptStream(ctx)
+}
+
+// verifStream adapts an io.Reader to webtransport.Stream (writes are discarded).
+type verifStream struct {
 	r      io.Reader
 	closed *bool
 }
 
-func (s verifC13Stream) Read(p []byte) (int, error)               { return s.r.Read(p) }
-func (s verifC13Stream) Write(p []byte) (int, error)              { return len(p), nil }
-func (s verifC13Stream) Close() error                             { *s.closed = true; return nil }
-func (s verifC13Stream) StreamID() quic.StreamID                  { return 0 }
-func (s verifC13Stream) CancelWrite(webtransport.StreamErrorCode) {}
-func (s verifC13Stream) CancelRead(webtransport.StreamErrorCode)  {}
-func (s verifC13Stream) SetWriteDeadline(time.Time) error         { return nil }
-func (s verifC13Stream) SetReadDeadline(time.Time) error          { return nil }
-func (s verifC13Stream) SetDeadline(time.Time) error              { return nil }
+func (s verifStream) Read(p []byte) (int, error)               { return s.r.Read(p) }
+func (s verifStream) Write(p []byte) (int, error)              { return len(p), nil }
+func (s verifStream) Close() error                             { *s.closed = true; return nil }
+func (s verifStream) StreamID() quic.StreamID                  { return 0 }
+func (s verifStream) CancelWrite(webtransport.StreamErrorCode) {}
+func (s verifStream) CancelRead(webtransport.StreamErrorCode)  {}
+func (s verifStream) SetWriteDeadline(time.Time) error         { return nil }
+func (s verifStream) SetReadDeadline(time.Time) error          { return nil }
+func (s verifStream) SetDeadline(time.Time) error              { return nil }
 
-// VerifC13Serve builds a ServerTransport with the given MaxBufferSize in the state Handshake() leaves
-// it in (stream accepted, t.limitedReader = newLimitedReader(t.stream, t.readLimit)) and runs the real
-// PostHandshake read loop on it until the transport closes itself (read error, limit or end of
-// stream). Packets and the close are reported through the transport's own callbacks. Everything runs
-// on the calling goroutine. streamClosed tells whether the transport closed the stream.
+// verifOpenFrame is what a client sends first: an OPEN packet without data, as one frame.
+var verifOpenFrame = []byte{1, '0'}
+
+// verifHandshake runs the real Handshake of a new ServerTransport on a harness stream. The stream handed to
+// the transport starts with the client's OPEN frame (which Handshake consumes), followed by `stream`.
+func verifHandshake(c *transport.Callbacks, stream io.Reader, maxBufferSize int64, closed *bool) (*ServerTransport, error) {
+	t := NewServerTransport(c, maxBufferSize, nil)
+	st := verifStream{r: io.MultiReader(bytes.NewReader(verifOpenFrame), stream), closed: closed}
+	r := httptest.NewRequest("GET", "https://verif/engine.io/?EIO=4&transport=webtransport", nil)
+	r = r.WithContext(context.WithValue(r.Context(), verifStreamKey{}, webtransport.Stream(st)))
+	_, err := t.Handshake(nil, httptest.NewRecorder(), r)
+	return t, err
+}
+
+// VerifC13Serve builds a ServerTransport with the given MaxBufferSize, performs its real Handshake on the
+// harness stream and runs the real PostHandshake read loop until the transport closes itself (read error,
+// limit or end of stream). Packets and the close are reported through the transport's own callbacks.
+// Everything runs on the calling goroutine. streamClosed tells whether the transport closed the stream.
 func VerifC13Serve(
 	stream io.Reader,
 	maxBufferSize int64,
@@ -45,9 +81,11 @@ func VerifC13Serve(
 ) (streamClosed bool) {
 	c := transport.NewCallbacks()
 	c.Set(onPacket, onClose)
-	t := NewServerTransport(c, maxBufferSize, nil)
-	t.stream = verifC13Stream{r: stream, closed: &streamClosed}
-	t.limitedReader = newLimitedReader(t.stream, t.readLimit)
+	t, err := verifHandshake(c, stream, maxBufferSize, &streamClosed)
+	if err != nil {
+		onClose(t.Name(), err)
+		return
+	}
 	t.PostHandshake(nil)
 	return
 }
